@@ -85,7 +85,7 @@ class ModuleReader(Reader):
         self.object.midi_out_name = data.decode(ENCODING)
 
     def process_SMIC(self, data):
-        (self.object.midi_out_channel,) = unpack("<i", data)
+        (self.object.midi_out_channel,) = unpack("<I", data)
 
     def process_SMIB(self, data):
         (self.object.midi_out_bank,) = unpack("<i", data)
